@@ -201,6 +201,15 @@ def run_pair(col, jmod, tmod, name):
         col.add("C12.O1", "%s attached default parameters" % name, "both backends attach the same default parameter values to the model function (they complete partial parameter sets)",
                 kwj is not None and norm(kw) == norm(kwj), "%s.kwargs = %s but %s.kwargs = %s" % (jmod.replace("felupe.constitution.", ""), kwj, tmod.replace("felupe.constitution.", ""), kw))
     nj, nt = _defnode(it, jmod, name), _defnode(it, tmod, name)
+    # the jax models are declared @wraps(<tensortrax namesake>): constitution/jax/_helpers.py vmap reads parameter order and default values with
+    # inspect.signature (which follows __wrapped__ to the tensortrax signature) and hands the values over *positionally* -- the two signatures
+    # have to list the same parameters in the same order with the same defaults
+    wrapped = any(isinstance(d, ast.Call) and getattr(d.func, "id", getattr(d.func, "attr", "")) == "wraps" for d in nj.decorator_list)
+    if wrapped:
+        sj = ([a.arg for a in nj.args.args], [ast.dump(d) for d in nj.args.defaults])
+        st_ = ([a.arg for a in nt.args.args], [ast.dump(d) for d in nt.args.defaults])
+        col.add("C12.O1", "%s signatures" % name, "a jax model that wraps its tensortrax namesake has the same parameter list (names, order, defaults): parameters are bound by position through the wrapped signature",
+                sj == st_, "%s(%s) vs %s(%s)" % (jmod.replace("felupe.constitution.", ""), ", ".join(sj[0]), tmod.replace("felupe.constitution.", ""), ", ".join(st_[0])))
     params = [a.arg for a in nt.args.args]
     uses_eig = any(isinstance(n, ast.Name) and n.id in ("eigvalsh", "eigh", "eigvalsh2") for f in (nt, nj) for n in ast.walk(f))
     worlds = (["diag"] if uses_eig else ["diag", "full"]) if "C" in params else ["-"]
